@@ -71,10 +71,14 @@ type c15Op struct {
 var c15Transient = map[string]bool{"http500": true, "http502": true, "http503": true, "http504": true, "refused": true, "reseteof": true, "stall": true,
 	"be:retryable": true, "be:pkcs11-fatal": true, "be:hang": true,
 	"reset": true, "backlog": true}
-var c15Permanent = map[string]bool{"http400": true, "http403": true, "http404": true, "be:usage": true, "be:notimpl": true, "be:pkcs11-user": true}
+var c15Permanent = map[string]bool{"http400": true, "http403": true, "http404": true, "be:usage": true, "be:notimpl": true, "be:pkcs11-user": true,
+	// a reply that is not a reply (no JSON document, garbage instead of JSON, bytes
+	// that are not HTTP at all) is none of the transient failures the statement
+	// lists: retrying is allowed "only for transient failures"
+	"malformed": true, "empty200": true, "malformed-http": true}
 
-// everything else (malformed JSON, empty 200, 501, generic back-end error) is
-// not classified by the statement
+// everything else (501, generic back-end error) is not classified by the
+// statement
 
 type eofBody struct {
 	b    []byte
@@ -119,7 +123,7 @@ func (rt *c15RT) pick(op *c15Op) (string, string) {
 		}
 		return "pass", ""
 	}
-	kinds := []string{"http503", "http500", "http502", "http504", "refused", "reseteof", "stall", "be", "http400", "http403", "http404", "malformed", "empty200", "http501"}
+	kinds := []string{"http503", "http500", "http502", "http504", "refused", "reseteof", "stall", "be", "http400", "http403", "http404", "malformed", "empty200", "malformed-http", "http501"}
 	k := kinds[t.Choose(len(kinds), "attempt-fault")]
 	if k != "be" {
 		return k, ""
@@ -176,6 +180,9 @@ func (rt *c15RT) RoundTrip(req *http.Request) (*http.Response, error) {
 		return nil, ctx.Err()
 	case outcome == "malformed":
 		return mkResp(req, 200, io.NopCloser(strings.NewReader("<html>not json</html>"))), nil
+	case outcome == "malformed-http":
+		// what net/http's transport reports when the peer answers with bytes that are not HTTP
+		return nil, errors.New("net/http: HTTP/1.x transport connection broken: malformed HTTP response \"<html>oops\"")
 	case outcome == "empty200":
 		return mkResp(req, 200, io.NopCloser(strings.NewReader(""))), nil
 	}
